@@ -10,7 +10,7 @@
 (* an uncoupled pair has no enabled machine action - the deviation action  *)
 (* UncoupledGateStep records the clause and keeps validating.  The return  *)
 (* event evaluates the postconditions of the trace kind.  Verdicts are     *)
-(* total: exactly one line <<"V", tid, {failed clauses}>> per trace.       *)
+(* total: exactly one JSON line {v: tid, c: failed clauses, x: ..} per trace.*)
 (*                                                                         *)
 (* kinds:                                                                  *)
 (*   table    one line of a stabilizer lookup table                  (C17) *)
@@ -19,6 +19,7 @@
 (*   compress compress_preparation_circuit(program, conn)      (C07,C02,C04)*)
 (*   mub      one (basis, circuit) pair of a MUB family            (C09,C02)*)
 (*   meas     a tomography / stabilizer-measurement circuit        (C02)   *)
+(*   witness  a competitor circuit produced by Optimality.tla      (C05)   *)
 (***************************************************************************)
 EXTENDS CliffordMachine, ClassIds, TLC, Json, IOUtils
 
@@ -122,6 +123,12 @@ PostMub(tr) ==
    \cup (IF ~(Len(tab) = tr.n /\ AllDiagonal) THEN {"diag"} ELSE {})
    \cup (IF tr.cost >= 0 /\ cost # tr.cost THEN {"cost"} ELSE {})
 
+(* a competitor circuit found by the Optimality model: must be coupled, have the claimed cost and prepare a *)
+(* state of the claimed class                                                                               *)
+PostWitness(tr) ==
+   (IF cost # tr.cost THEN {"cost"} ELSE {})
+   \cup (IF IdOfGroup(tr.n, Span(tab)) # tr.cls THEN {"class"} ELSE {})
+
 PostMeas(tr) ==
    (IF Len(tr.gates) < tr.preplen THEN {"prep-changed"} ELSE {})
    \cup (IF ~(/\ Len(tr.measures) = tr.n
@@ -140,9 +147,10 @@ Return ==
                     [] T.kind \in {"prep", "readout", "compress"} -> PostApi(T)
                     [] T.kind = "mub" -> PostMub(T)
                     [] T.kind = "meas" -> PostMeas(T)
+                    [] T.kind = "witness" -> PostWitness(T)
                     [] OTHER -> {"unknown-kind"}
           all == fails \cup post
-      IN PrintT(<<"V", tid, all, cost, MaxLvl(lvl)>>)
+      IN PrintT(ToJson([v |-> tid, c |-> all, x |-> <<cost, MaxLvl(lvl)>>]))
    /\ tid' = tid + 1 /\ l' = 0 /\ fails' = {}
    /\ UNCHANGED mvars
 
